@@ -103,7 +103,8 @@ PROPS = {
         "technique": "Lean 4 proof (code-shaped KDF skeleton = reference written from the published algorithm, for all inputs and all hash functions; loop closed forms by induction) + Go/Lean key correspondence on all ten schemes",
         "claim": "Kernel-checked for ALL passwords, salts, round counts and ALL hash functions: md5-crypt and SHA-crypt skeletons equal references written from PHK's and Drepper's descriptions (cycleTake, binary digits LSB-first, 16+A[0] repetitions, the i%2/i%3/i%7 round pattern); "
                  "final permutation tables (regenerated) are permutations; little-endian base64 digest encoding = bit-level spec (C16). The hand-written skeletons and the executable Lean primitives are tied to Go by key-for-key comparison on every boundary password length for all ten schemes.",
-        "note": "Partial: DES/bcrypt/NT/Sun-MD5/sha1 have no separate published-spec reference in Lean — their models are tied to Go by correspondence, and Go is tied to the system's libxcrypt 4.4 (cgo, crypt_r) in both directions on the shared domain by the xcrypt suite (a test, labelled as such). Known finding F11: libxcrypt's zero-rounds Sun MD5 form \"$md5$salt$$digest\" is rejected here.",
+        "note": "Every scheme now has a reference written from the published algorithm and a kernel-checked model = reference theorem for all inputs (Props/C03b.lean): sha1crypt_eq_spec (iterated HMAC), sunmd5_eq_spec(_wrap) (coin-toss rounds), nthash_eq_spec (MD4 of UTF-16LE; Go's one-U+FFFD-per-bad-byte rule), bcrypt_eq_spec (EksBlowfish, key‖NUL rules per prefix) with bcrypt_long_password_deviation stating the documented pre-2b ≥254-byte rule exactly, descrypt/desext_layer_eq_spec (25 / n salted DES iterations, BSDi key folding, 11-symbol output), and encrypt_eq_fips — the table-driven DES of des/descrypt, with its tables REGENERATED from const.go, equals FIPS 46-3 DES with the crypt(3) salt swap for every 64-bit key and block (table facts ie3264_is_IP_then_E, spe_is_E_P_S, pc_tables_are_PC1_shifts_PC2, cf6464_is_IPinv, salt_is_E_swap decided by the kernel). "
+                "Partial: hash/cipher primitives (MD4/MD5/SHA/HMAC/Blowfish) are parameters or hand copies validated differentially; Go is tied to the system's libxcrypt 4.4 (cgo, crypt_r) in both directions on the shared domain by the xcrypt suite (a test, labelled as such). Known finding F11: libxcrypt's zero-rounds Sun MD5 form \"$md5$salt$$digest\" is rejected here.",
         "rule": "kdf: per scheme passwords of 30 boundary lengths (0..257 around 8/16/32/56/64/72/128/254/256) plus random lengths ≤ 300, 8-bit content, every legal salt length class, rounds dense near the minimum, all prefix/option variants; "
                 "Go Key vs Lean model (hand-written skeleton over Lean primitives), results compared byte for byte; "
                 "xcrypt: 9 schemes × NUL-free 8-bit passwords at 5..25 boundary lengths × 2 (quick) / 30 (thorough) repetitions; there→here: settings built over every legal salt length and rounds near the minimum, hashed by libxcrypt, verified by <scheme>.Check and crypt.Check (and by the Lean model), near-miss password refused; "
